@@ -1195,3 +1195,84 @@ def eval_store_load(ctx, ckey, attr, disk):
         return f"<{type(exc).__name__}: {exc}>"
     v = getattr(obj, attr)
     return dict(v) if isinstance(v, dict) else v
+
+
+# --------------------------------------------------------------------------- configuration: commands and file round trip
+def eval_config_session(ctx):
+    """`gwf config set/get/unset` evaluated across two invocations through FileConfig.load/dump with the file modelled by hooks.
+
+    Returns a list of (step, got, want)."""
+    idx = ctx.index
+    ci = idx.cls("gwf.conf:FileConfig")
+    load = idx.method(ci, "load")
+    cmd = {n: idx.func(f"gwf.plugins.config:{n}") for n in ("get", "set", "unset")}
+    disk = {"content": None}
+    events = []
+    echoed = []
+
+    def h_open(path, mode="r", *a, **k):
+        mode = k.get("mode", mode)
+        events.append(("open", str(path), mode))
+        if "r" in mode and "+" not in mode and disk["content"] is None:
+            raise Raised("FileNotFoundError", str(path))
+        return Obj("file", path=str(path), mode=mode)
+
+    def h_dump(data, fobj, *a, **k):
+        events.append(("dump", dict(data), getattr(fobj, "path", None)))
+        disk["content"] = dict(data)
+        disk["path"] = getattr(fobj, "path", None)
+
+    hooks = {"builtins.open": h_open, "json.dump": h_dump, "json.load": lambda f, *a, **k: dict(disk["content"] or {}),
+             "click.echo": lambda *a, **k: echoed.append(a[0] if a else "")}
+    interp = PureInterp(ctx, hooks=hooks)
+    CFG = PROJ + "/.gwfconf.json"
+    steps = []
+
+    def invocation():
+        cfg = interp.call(load, (PathTok(CFG),), {}, self_obj=ci)
+        return Obj("ctx", config=cfg)
+
+    def run(step, fn, want):
+        try:
+            got = fn()
+        except Raised as exc:
+            got = f"raise {exc.kind}"
+        except Unsupported as exc:
+            got = f"<unsupported: {exc}>"
+        steps.append((step, got, want))
+
+    def do(name, c, *args):
+        del echoed[:]
+        interp.call(cmd[name], (c,) + args)
+        return echoed[-1] if echoed else None
+
+    try:
+        c1 = invocation()
+    except (Raised, Unsupported) as exc:
+        return [("load without a file", f"<{type(exc).__name__}: {exc}>", "an empty configuration over the defaults")]
+    run("get of a key that was never set", lambda: do("get", c1, "a"), "<not set>")
+    run("get of a default-only key", lambda: do("get", c1, "clean_logs"), True)
+    run("set a 12", lambda: (do("set", c1, "a", "12"), dict(disk["content"] or {}), disk.get("path"))[1:], ({"a": 12}, CFG))
+    run("set flag no", lambda: (do("set", c1, "flag", "no"), dict(disk["content"] or {}))[1], {"a": 12, "flag": False})
+    run("set backend.slurm.log_mode merged", lambda: (do("set", c1, "backend.slurm.log_mode", "merged"), dict(disk["content"] or {}))[1],
+        {"a": 12, "flag": False, "backend.slurm.log_mode": "merged"})
+    try:
+        c2 = invocation()
+    except (Raised, Unsupported) as exc:
+        steps.append(("second invocation loads the file", f"<{type(exc).__name__}: {exc}>", "loads what the first one saved"))
+        return steps
+    run("later invocation: get a", lambda: do("get", c2, "a"), 12)
+    run("later invocation: get flag (a stored False is a value)", lambda: do("get", c2, "flag"), False)
+    run("later invocation: get backend.slurm.log_mode", lambda: do("get", c2, "backend.slurm.log_mode"), "merged")
+    run("later invocation: get of an unset key", lambda: do("get", c2, "zzz"), "<not set>")
+    run("unset a", lambda: (do("unset", c2, "a"), dict(disk["content"] or {}))[1], {"flag": False, "backend.slurm.log_mode": "merged"})
+    run("unset of a key that is not set", lambda: (do("unset", c2, "never"), dict(disk["content"] or {}))[1], {"flag": False, "backend.slurm.log_mode": "merged"})
+    run("unset of a default-only key", lambda: (do("unset", c2, "clean_logs"), dict(disk["content"] or {}), do("get", c2, "clean_logs"))[1:],
+        ({"flag": False, "backend.slurm.log_mode": "merged"}, True))
+    try:
+        c3 = invocation()
+        run("third invocation: a is gone, the others stay", lambda: (do("get", c3, "a"), do("get", c3, "flag"), do("get", c3, "backend.slurm.log_mode")),
+            ("<not set>", False, "merged"))
+    except (Raised, Unsupported) as exc:
+        steps.append(("third invocation loads the file", f"<{type(exc).__name__}: {exc}>", "loads what the second one saved"))
+    return steps
